@@ -281,6 +281,15 @@ theorem multi_parked_implies_not_pred (kinds : Nat → Kind) (s0 : Sh) (evs : Li
     pred (kinds i) (mrun cfg kinds (MSt.init s0) evs).sh = false :=
   (MNoLost.run source_facts_n evs (MNoLost.init kinds s0)).parked i
 
+/-- **Observers.** A read-only call (or `set_peer`) made by any thread at any point of any interleaving is
+one atomic step (fact `readersAtomic`, part of `source_facts_n`): it changes nothing, wakes nobody and
+sees exactly the state of that point of the history - what the harness's observer threads are checked
+against. -/
+theorem observer_step (kinds : Nat → Kind) (st : MSt) (pick : Nat) :
+    (mstep cfg kinds st (.op .nop pick)).sh = st.sh ∧ (mstep cfg kinds st (.op .nop pick)).pc = st.pc := by
+  simp only [mstep, applyOp]
+  split <;> simp
+
 /-- Mutual exclusion: at most one waiter is inside its loop body. -/
 theorem multi_mutex_exclusive (kinds : Nat → Kind) (s0 : Sh) (evs : List MEv) (i j : Nat)
     (hi : (mrun cfg kinds (MSt.init s0) evs).pc i = .checking)
